@@ -40,32 +40,48 @@ class VarMap(dict):
     return dict.__getitem__(s, c.name)
 
 
+def _groups():
+  from pymtl3.passes.PassGroups import DefaultPassGroup, SimpleSimPass
+  from pymtl3.passes.mamba.PassGroups import UnrollSim, HeuTopoUnrollSim, Mamba2020
+
+  def default(top): top.elaborate(); top.apply(DefaultPassGroup())
+  def simple(top): top.elaborate(); top.apply(SimpleSimPass())
+  return {'default': default, 'dynamic': default, 'simple': simple,
+          'unroll': lambda top: top.apply(UnrollSim(print_line_trace=False)),
+          'heutopo': lambda top: top.apply(HeuTopoUnrollSim(print_line_trace=False)),
+          'mamba': lambda top: top.apply(Mamba2020(print_line_trace=False))}
+
+
+GROUP_NAMES = ('default', 'simple', 'unroll', 'heutopo', 'mamba')
+
+
 class SymSim:
-  def __init__(s, top, sched='dynamic', merge=True, block_path_budget=4096, line_trace=False, prepare=True,
-               extra_modules=(), pre_elaborated=False):
-    from pymtl3.passes.sim.GenDAGPass import GenDAGPass
-    from pymtl3.passes.sim.DynamicSchedulePass import DynamicSchedulePass
-    from pymtl3.passes.sim.SimpleSchedulePass import SimpleSchedulePass
-    from pymtl3.passes.sim.PrepareSimPass import PrepareSimPass
+  """group: which REAL pass group builds the simulator ('default' = DefaultPassGroup with DynamicSchedulePass,
+  'simple' = SimpleSimPass, 'unroll', 'heutopo', 'mamba' = the three Mamba groups).  With merge=True every
+  function that a tick/eval function (or a Mamba meta block) is generated from is wrapped for block-level
+  fork-and-merge; the schedules themselves (top._sched.*) stay untouched."""
+
+  def __init__(s, top, group='default', merge=True, block_path_budget=4096, extra_modules=(), sched=None):
+    from pymtl3.passes.sim.SimpleTickPass import SimpleTickPass
+    from pymtl3.passes.mamba.UnrollSimPass import UnrollSimPass
+    from pymtl3.passes.mamba.Mamba2020Pass import Mamba2020Pass
     s.Bits = sp.setup(extra_modules)
     s.top = top
     s.merge = merge
+    s.group = sched or group
     s.block_path_budget = block_path_budget
     s.stats = dict(blk_calls=0, blk_paths=0)
-    if not pre_elaborated: top.elaborate()
-    GenDAGPass()(top)
-    if sched == 'dynamic': DynamicSchedulePass()(top)
-    elif sched == 'simple': SimpleSchedulePass()(top)
-    elif callable(sched): sched(top)
-    else: raise ValueError(sched)
-    s.raw_update = list(top._sched.update_schedule)
-    s.raw_ff = list(top._sched.schedule_ff)
+    saved = (SimpleTickPass.__dict__['gen_tick_function'], UnrollSimPass.__dict__['gen_tick_function'], Mamba2020Pass.compile_meta_block)
     if merge:
-      top._sched.update_schedule[:] = [s.wrap(b) for b in top._sched.update_schedule]
-      top._sched.schedule_ff[:] = [s.wrap(b) for b in top._sched.schedule_ff]
-    if prepare:
-      PrepareSimPass(print_line_trace=line_trace)(top)
-      s.collect_cells()
+      o1, o2, o3 = saved[0].__func__, saved[1].__func__, saved[2]
+      SimpleTickPass.gen_tick_function = staticmethod(lambda schedule: o1([s.wrap(f) for f in schedule]))
+      UnrollSimPass.gen_tick_function = staticmethod(lambda funclist: o2([s.wrap(f) for f in funclist]))
+      Mamba2020Pass.compile_meta_block = lambda self, blocks: o3(self, [s.wrap(b, keep=self) for b in blocks])
+    try:
+      _groups()[s.group](top)
+    finally:
+      SimpleTickPass.gen_tick_function, UnrollSimPass.gen_tick_function, Mamba2020Pass.compile_meta_block = saved
+    s.collect_cells()
 
   # -- cells ------------------------------------------------------------------------
   def collect_cells(s):
@@ -192,7 +208,7 @@ class SymSim:
     return {c.name: s.bv(c.obj) for c in s.cells}
 
   # -- block-level fork and merge ------------------------------------------------------
-  def wrap(s, blk):
+  def wrap(s, blk, keep=None):
     def wrapper():
       outer = Explorer.cur
       if outer is None: return blk()
@@ -221,6 +237,8 @@ class SymSim:
       s.restore(merged)
     wrapper.__name__ = getattr(blk, '__name__', 'blk')
     wrapper.__wrapped_blk__ = blk
+    if keep is not None and blk in getattr(keep, 'branchiness', {}):     # Mamba annotates meta-block source per block
+      keep.branchiness[wrapper] = keep.branchiness[blk]; keep.only_loop_at_top[wrapper] = keep.only_loop_at_top[blk]
     return wrapper
 
   def summarize(s, blk, vars_=None):
